@@ -23,6 +23,7 @@ import (
 	"github.com/nspcc-dev/neo-go/pkg/core/transaction"
 	"github.com/nspcc-dev/neo-go/pkg/crypto/keys"
 	"github.com/nspcc-dev/neo-go/pkg/neorpc/result"
+	"github.com/nspcc-dev/neo-go/pkg/smartcontract"
 	"github.com/nspcc-dev/neo-go/pkg/smartcontract/manifest"
 	"github.com/nspcc-dev/neo-go/pkg/util"
 	"github.com/nspcc-dev/neo-go/pkg/vm/stackitem"
@@ -41,7 +42,8 @@ import (
 )
 
 type bindCall struct {
-	kind   string // call, expand, make, send
+	kind   string // call, expand, make, send, run (a script the binding built itself)
+	script []byte
 	method string
 	nargs  int
 	params []any
@@ -136,6 +138,7 @@ func (a *bindActor) MakeCall(c util.Uint160, m string, params ...any) (*transact
 	return transaction.New([]byte{0x40}, 0), nil
 }
 func (a *bindActor) MakeRun(script []byte) (*transaction.Transaction, error) {
+	a.calls = append(a.calls, bindCall{kind: "run", script: script})
 	return transaction.New(script, 0), nil
 }
 func (a *bindActor) MakeUnsignedCall(c util.Uint160, m string, _ []transaction.Attribute, params ...any) (*transaction.Transaction, error) {
@@ -143,6 +146,7 @@ func (a *bindActor) MakeUnsignedCall(c util.Uint160, m string, _ []transaction.A
 	return transaction.New([]byte{0x40}, 0), nil
 }
 func (a *bindActor) MakeUnsignedRun(script []byte, _ []transaction.Attribute) (*transaction.Transaction, error) {
+	a.calls = append(a.calls, bindCall{kind: "run", script: script})
 	return transaction.New(script, 0), nil
 }
 func (a *bindActor) SendCall(c util.Uint160, m string, params ...any) (util.Uint256, uint32, error) {
@@ -150,6 +154,7 @@ func (a *bindActor) SendCall(c util.Uint160, m string, params ...any) (util.Uint
 	return util.Uint256{}, 0, nil
 }
 func (a *bindActor) SendRun(script []byte) (util.Uint256, uint32, error) {
+	a.calls = append(a.calls, bindCall{kind: "run", script: script})
 	return util.Uint256{}, 0, nil
 }
 func (a *bindActor) Sender() util.Uint160 { return a.w.Payer.Hash }
@@ -306,6 +311,58 @@ func (p *bindPools) value(t reflect.Type, try int) reflect.Value {
 	return reflect.Zero(t)
 }
 
+// bindScript judges a script a generated binding method built itself. The
+// generator emits such scripts for state-changing methods that answer with a
+// Boolean: the call followed by ASSERT, so that a refusal answered with
+// `false` fails the transaction instead of being recorded as a success.
+// Returns true when a violation was reported.
+func bindScript(r *Run, w *World, d *Deployed, man *manifest.Manifest, goName string, script []byte, goArgs []reflect.Value) bool {
+	params := make([]any, len(goArgs))
+	for i, a := range goArgs {
+		params[i] = a.Interface()
+	}
+	recognised := false
+	for _, mm := range man.ABI.Methods {
+		if len(mm.Parameters) != len(params) || mm.Safe {
+			continue
+		}
+		plain, err := smartcontract.CreateCallScript(d.Hash, mm.Name, params...)
+		if err != nil {
+			continue
+		}
+		asserted, err := smartcontract.CreateCallWithAssertScript(d.Hash, mm.Name, params...)
+		if err != nil {
+			continue
+		}
+		switch {
+		case bytes.Equal(script, asserted) && mm.ReturnType == smartcontract.BoolType:
+			r.Cell("C15.bindings", d.Repo+"."+goName)
+			r.Count("binding_scripts_compared")
+			return false
+		case bytes.Equal(script, plain) && mm.ReturnType == smartcontract.BoolType:
+			r.Violation("C15/binding-ignores-refusal", "", "rpc/%s.%s invokes %s (answers with a Boolean) without asserting the answer: a refused call (false) becomes a successful transaction", d.Repo, goName, mm.Name)
+			return true
+		case bytes.Equal(script, plain) || bytes.Equal(script, asserted):
+			recognised = true
+		}
+	}
+	if recognised {
+		r.Count("binding_scripts_compared")
+		return false
+	}
+	// another script: judged by what it does. It must invoke a method of the
+	// manifest compiled from the sources on this contract (seen in the what-if
+	// VM's invocation tree is more than this pass has: the callee's answer
+	// decides), so only "method not found" is a verdict here
+	p := w.WhatIf(script, nil, 0)
+	if p.State != vmstate.Halt && (strings.Contains(p.Fault, "method not found") || strings.Contains(p.Fault, "invalid number of parameters")) {
+		r.Violation("C15/binding-calls-missing-method", "", "rpc/%s.%s builds a script that faults with: %s", d.Repo, goName, p.Fault)
+		return true
+	}
+	r.Count("binding_script_not_recognised")
+	return false
+}
+
 var genMethods = map[string]map[string]bool{}
 
 var reGenMethod = regexp.MustCompile(`(?m)^func \(c \*Contract(?:Reader)?\) ([A-Za-z0-9_]+)\(`)
@@ -397,8 +454,16 @@ func bindOne(r *Run, a *bindActor, obj reflect.Value, m reflect.Method, d *Deplo
 			}
 		}
 		for _, c := range a.calls {
-			if c.kind == "make" || c.kind == "send" {
+			if c.kind == "make" || c.kind == "send" || c.kind == "run" {
 				isReader = false
+			}
+			if c.kind == "run" {
+				if generatedMethod(d.Repo, m.Name) && len(a.calls) == 1 {
+					if bindScript(r, a.w, d, man, m.Name, c.script, args[1:]) {
+						return
+					}
+				}
+				continue
 			}
 			// every Go argument of the binding method must be forwarded, in order
 			// (an overloaded contract method would otherwise silently be hit with
